@@ -347,3 +347,47 @@ def rule_import_compression(ctx):
                          "storage convention is handed to the application as its compressed bytes")
     ctx.floor("CRDRV", 3, n, "(arms of the import switch that create image records)")
     return n
+
+
+def rule_rig_number_type(ctx):
+    """RIGNT (C15): GR writes a raster-image group (RIG) next to its own Vgroup 'to guarantee compatibility with older software',
+    i.e. so that DFR8/DF24 can read the image.  GRIupdateRIG does so exactly for the number types its guard lets through
+    (`img_dim.nt != K` returns early) and writes that type into the ID record's NT element.  Each RIG reader (DFR8getrig,
+    DFGRgetrig) rejects a RIG whose NT is not in the set it compares `ntstring[1]` with.  The writer's types must be a subset
+    of every reader's, or the compatibility RIG is unreadable by the very interfaces it is written for."""
+    from .codec import ast_walk
+    from .facts import is_int, int_val
+    prog = ctx.prog
+    w = prog.func("GRIupdateRIG")
+    if w is None:
+        ctx.unrecognised("RIGNT", "RIGNT:GRIupdateRIG", "-", "GRIupdateRIG not found")
+        return 0
+    written = set()
+    for _b, _i, _s, x in w.nodes(True):
+        if x[0] == "bin" and x[1] == "!=" and is_int(x[3]) and any(y[0] == "mem" and y[2] == "nt" for y in walk(x[2], True)):
+            written.add(int_val(x[3]))
+    if not written:
+        ctx.unrecognised("RIGNT", "RIGNT:GRIupdateRIG", w.where(), "no `img_dim.nt != <type>` guard found")
+        return 0
+    n = 0
+    for f in prog.lib_funcs():
+        if not f.rel.endswith(("dfr8.c", "dfgr.c")):
+            continue
+        acc = set()
+        line = None
+        for _b, _i, s, x in f.nodes(True):
+            if x[0] == "bin" and x[1] == "!=" and is_int(x[3]) and kind(strip(x[2])) == "idx" and is_int(strip(x[2])[2], 1) and "ntstring" in render(strip(x[2])[1]):
+                acc.add(int_val(x[3]))
+                line = s.get("l")
+        if not acc:
+            continue
+        n += 1
+        key = "RIGNT:%s" % f.name
+        missing = written - acc
+        if missing:
+            ctx.violated("RIGNT", key, f.where(line), "GRIupdateRIG writes RIGs whose number type is %s, but %s accepts only %s: the images GR stores for compatibility are "
+                         "invisible to this interface" % (sorted(written), f.name, sorted(acc)))
+        else:
+            ctx.holds("RIGNT", key, f.where(line), "accepts %s, GR writes %s" % (sorted(acc), sorted(written)), nontrivial=True)
+    ctx.floor("RIGNT", 2, n, "(RIG readers that test the number type)")
+    return n
